@@ -1361,8 +1361,8 @@ void say (svalue_t * v, array_t * avoid) {
       if (ob->flags & O_LISTENER || ob->interactive)
         send_say (ob, buff, avoid);
 
-      /* And its inventory... */
-      for (ob = origin->super->contains; ob; ob = ob->next_inv)
+      /* And its inventory... (catch_tell() in the surrounding object may have destructed it, and us with it) */
+      for (ob = origin->super ? origin->super->contains : 0; ob; ob = ob->next_inv)
         {
           if (ob != origin && (ob->flags & O_LISTENER || ob->interactive))
             {
